@@ -487,12 +487,16 @@ func Permuted(t *types.Type, name string) *types.Type {
 
 // ---- arbitrary well-typed values
 
-var strPool = [...]string{"", "a", "hello", "é晓", "a\"\\\n", "\xff"}
+var strPool = [...]string{"", "a\"\\\n", "é晓", "hello", "a", "\xff"}
 
 // AnyStr: a selector-chosen concrete string (ASCII, multi-byte, needing
 // escapes, invalid UTF-8) or, in dedicated harnesses, symbolic bytes.
 func AnyStr(name string) string {
-	return strPool[sv.Choice(name+".str", len(strPool))]
+	n := 3
+	if sv.Thorough() {
+		n = len(strPool)
+	}
+	return strPool[sv.Choice(name+".str", n)]
 }
 
 func maxLen() int {
